@@ -24,10 +24,13 @@
 (*   SmallIsStep    pixman_edge_step (StepYSmall) = RENDER_EDGE_STEP_SMALL *)
 (*   SampleY        SampleCeilY / SampleFloorY are the first grid row >= y *)
 (*                  / the last grid row < y  (checked once, all y of a box)*)
+(*   WideAgrees     the two-limb cursor of the mathematical line (wide     *)
+(*                  edges) = the walker, on every row and across steps     *)
 (* Negative configurations: InitE <- BadInitE (e = 0 for dx >= 0),         *)
 (* NeedsCorrection <- BadNeedsCorrection (e >= 0), QStale = TRUE,          *)
 (* QExact0 = TRUE, QBackstep = TRUE (the unrepaired pixman_edge_step /     *)
-(* pixman_edge_init): TLC must reject each.                                *)
+(* pixman_edge_init), WideDeltas <- HalvedDeltas (deltas narrowed by a     *)
+(* truncating halving): TLC must reject each.                              *)
 (***************************************************************************)
 EXTENDS Trap, FiniteSets, TLC
 
@@ -107,6 +110,43 @@ PathIndependent ==
 SmallIsStep ==
     Walking => /\ EdgeStepQ(c.ed, StepYSmall(c.n), NoQuirks) = EdgeStepSmall(c.ed)
                /\ EdgeStepQ(c.ed, StepYBig(c.n), NoQuirks) = EdgeStepBig(c.ed)
+
+(* WIDE EDGES.  The cursor of Trap.tla (the mathematical line: floor and remainder of          *)
+(* (y - yt) dxt / dy on two-limb numbers) holds on every row of every walk exactly the abscissa *)
+(* of the walker record, its small / big steps lead to the cursor of the next row, and LineX    *)
+(* is that abscissa: the walker of a pixman_edge_t and the cursor of an edge whose deltas no    *)
+(* pixman_edge_t can hold follow the same line by the same rule.  The configurations replace    *)
+(* WideBase by SmallBase so that the lattice numbers have several limbs and every carry,        *)
+(* borrow and halving across limbs occurs.                                                      *)
+SmallBase == 4
+WideAgrees ==
+    Walking =>
+       LET xb == XT + c.dxt  yb == c.yt + c.dy
+           cu == WCurInit(c.n, c.y, XT, c.yt, xb, yb) IN
+       /\ WCurX(cu) = c.ed.x
+       /\ LineX(XT, c.yt, xb, yb, c.y) = c.ed.x
+       /\ LinePos(XT, c.yt, xb, yb, c.y) = cu.pos
+       /\ WCurStepSmall(cu) = WCurInit(c.n, c.y + StepYSmall(c.n), XT, c.yt, xb, yb)
+       /\ WCurStepBig(cu) = WCurInit(c.n, c.y + StepYBig(c.n), XT, c.yt, xb, yb)
+       /\ WLess(cu.pos[2], cu.DY) /\ ~WLess(cu.pos[2], WZero)
+(* the arithmetic itself, on all small operands *)
+WideArithOK ==
+    \A a \in 0..40 : \A b \in 0..12 : \A d \in 1..13 :
+        /\ WInt(WOf(a)) = a /\ WInt(WOf(-a)) = -a /\ WInt(WNeg(WOf(a))) = -a
+        /\ WInt(WAdd(WOf(a), WOf(b))) = a + b /\ WInt(WSub(WOf(b), WOf(a))) = b - a
+        /\ WLess(WOf(a), WOf(b)) = (a < b) /\ WLess(WOf(-a), WOf(b - 6)) = (-a < b - 6)
+        /\ WInt(WHalf(WOf(a))) = a \div 2 /\ WOdd(WOf(a)) = (a % 2 = 1)
+        /\ WInt(WMul(WOf(a), WOf(b))) = a * b
+        /\ WAbsDiff(a, b) = WOf(Abs(a - b)) /\ WAbsDiff(-a, b) = WOf(a + b)
+        /\ LET qr == WDivMod(WOf(a), WOf(d)) IN WInt(qr[1]) = a \div d /\ WInt(qr[2]) = a % d
+        /\ (b < d) => LET qr == WMulDivMod(WOf(a), WOf(b), WOf(d)) IN WInt(qr[1]) = (a * b) \div d /\ WInt(qr[2]) = (a * b) % d
+ASSUME WideArithOK
+(* Negative configuration TrapMC_neg_halve: deltas beyond a limit are halved, truncating (what   *)
+(* pixman_edge_init does with deltas that do not fit 32 bits): unless both are even this is a    *)
+(* different line, and WideAgrees must fail.                                                     *)
+HalveAbove == 20
+HalvedDeltas(DX, DY) ==
+    IF WLess(WOf(HalveAbove), DX) \/ WLess(WOf(HalveAbove), DY) THEN <<WHalf(DX), IF WHalf(DY) = WZero THEN DY ELSE WHalf(DY)>> ELSE <<DX, DY>>
 
 (* The sample grid.  On a scaled lattice every y / x of a box is probed; with the real        *)
 (* constants the values within two units of a grid point or pixel boundary.                  *)
